@@ -5,6 +5,7 @@
  *   drive_cpp replay <ops_in> <impl_out>
  *
  * ops:  xs <tree>            build the tree with put() in the given order, serialize()
+ *       xt <tree>            toStr()
  *       xr<k> <tree>         serialize, deserialize with overload k (1 vector, 2 ptr+size, 3 parser*, 4 parser* in mid-traversal,
  *                            5 parser* with its error flag set), serialize again
  *       xd<k> <fill> <hex>   deserialize arbitrary bytes with overload k after poisoning the stack with <fill>,
@@ -122,6 +123,10 @@ static void exec_line(const std::string &line) {
     alarm(20);
     try {
         if (t[0] == "C") { fprintf(fout, "C %s\n", t.size() > 1 ? t[1].c_str() : "0"); return; }
+        if (t[0] == "xt") {      /* Binson::toStr(): the text of the tree, "" when the document is refused (e.g. nested deeper than 10) */
+            Binson b = parse_tree(t, 1); std::string str = b.toStr();
+            fprintf(fout, "ok %s\n", hexs(str).c_str()); return;
+        }
         if (t[0] == "xs") {
             Binson b = parse_tree(t, 1); std::vector<uint8_t> v = b.serialize();
             fprintf(fout, "ok %s\n", hex(v.data(), v.size()).c_str()); return;
@@ -206,6 +211,7 @@ int main(int argc, char **argv) {
             if (chance(6)) tree = gen_deep(8 + (int)rn(5));      /* object nesting 8..12 (root counts) */
             else tree = gen_object(1, budget, chance(10) ? 12 : 8);
             emit("xs " + tree);
+            if (chance(30)) emit("xt " + tree);
             char op[8]; snprintf(op, sizeof op, "xr%d%s", 1 + (int)rn(5), chance(40) ? "p" : ""); emit(std::string(op) + " " + tree);
         }
         fclose(fops); fclose(fout); return 0;
